@@ -49,3 +49,15 @@ PROPS["C11"] = {
                    "everywhere; the limit lemma is an induction over the contracts.",
     "assumptions": [],
 }
+
+PROPS["C19"] = {
+    "title": "Storage tokens are stable handles to the appended values",
+    "units": {"quick": ["storage"], "thorough": ["storage"]},
+    "level": "proof",
+    "technique": "Verus contracts on extracted Storage/Token functions over a Seq view with uninterpreted equality; history lemmas by induction over the contracts",
+    "design_ref": "DESIGN.md §4 C19",
+    "explanation": "append/fetch_or_append/index/Token::new/index are extracted verbatim and proved against whole-view postconditions "
+                   "(data' == data.push(v) or data' == data; first equal element); stability, freshness and density of tokens for "
+                   "every finite history are lemmas over those postconditions only.",
+    "assumptions": [],
+}
